@@ -713,7 +713,7 @@ func init() {
 			if tier == "thorough" {
 				return 4000
 			}
-			return 320
+			return 640
 		},
 		ChunkSize:   10,
 		Rule:        "inputs come from four generators, each used as handshake reply and as post-handshake stream against clients with 0-3 at-least-once and 0-3 exactly-once transfers outstanding plus optional pending Subscribe, Unsubscribe and Ping: (directed) 47 hand-listed offences, one per violation the statement names, placed after a valid prefix of 0-6 packets, plus 9 stage-dependent ones (an acknowledgement that would be right one stage earlier or later, after a prefix that brings the transfers to that stage); (mutation) every single-field mutation of a generated valid stream: each byte of each fixed header set to 0, +-1, 0xff, high bit flipped, identifiers set to zero, foreign space and neighbour, truncation at every byte (broker then stays silent); (soup) PRNG bytes and valid packets in PRNG order; (handshake) all 256 return codes and flag bytes, truncated and foreign first packets. A reference classifier written from the specification (over the model of what is outstanding) gives the first offending packet; gray-zone inputs (reserved flag bits on non-PUBLISH packets, topic contents, DUP on QoS 0) get only the unconditional monitors. Oracle: no panic (child-process monitor); packets before the offence take effect (returned messages, completed transfers equal the reference); at the offence ReadSlices errs, the connection is closed by the client, the next ReadSlices dials again and a message sent on that next connection comes out; completions and record deletions need their in-order acknowledgement bytes in the input; messages beyond the read buffer that stop short are read or skipped by the application; a Read that blocks inside a packet must have a deadline armed (the connection expires it instead of waiting); bytes allocated stay below the largest announced packet + 8 MiB. Non-trivial: input with an offence reached by the parser; distinct by (generator, offence kind, outstanding state, handshake or stream).",
